@@ -21,8 +21,8 @@ ID = "C11"
 DELTA = ST.DELTA
 
 TIERS = {
-    "quick": {"runs": 12000, "stat_jobs": 40, "stat_M": 20000, "selftest": 16, "budget_s": 240, "chunk": 150},
-    "thorough": {"runs": 160000, "stat_jobs": 160, "stat_M": 100000, "selftest": 64, "budget_s": 1500, "chunk": 400},
+    "quick": {"runs": 12000, "stat_jobs": 52, "stat_M": 20000, "selftest": 16, "budget_s": 240, "chunk": 150},
+    "thorough": {"runs": 160000, "stat_jobs": 208, "stat_M": 100000, "selftest": 64, "budget_s": 1500, "chunk": 400},
 }
 
 RULE = (
@@ -665,6 +665,9 @@ STAT_COMBOS = [
     ("single_pass", "by_label", False), ("dynamic", None, False), ("dynamic", "by_label", False),
     ("proportion", None, False), ("replacement", None, True), ("dynamic", "by_label", True),
     ("proportion", None, False, "sparse"),  # a small fraction of a large class: where sparse / rejection-style draws would live
+    ("single_pass", None, False, "ties"),  # heavily tied scores: every source score (not every distinct value) is drawn once on average
+    ("replacement", None, False, "ties"),
+    ("replacement", None, False, "easy_heavy"),  # a handful of scored samples next to many easy ones: the hard stratum's mean
 ]
 
 
@@ -676,9 +679,12 @@ def stat_scenario(verif_seed, j, tier):
     rnd = random.Random(run_seed(verif_seed, "C11-stat", j))
     combo = STAT_COMBOS[j % len(STAT_COMBOS)]
     method, strat, smoothing = combo[:3]
-    sparse = len(combo) > 3
-    small = (j // len(STAT_COMBOS)) % 4 == 3 and method in ("replacement", "single_pass")
-    if small:
+    variant = combo[3] if len(combo) > 3 else None
+    sparse = variant == "sparse"
+    small = (j // len(STAT_COMBOS)) % 4 == 3 and method in ("replacement", "single_pass") and variant is None
+    if variant == "easy_heavy":
+        npos, nneg = rnd.randint(4, 8), rnd.randint(40, 90)
+    elif small:
         npos, nneg = rnd.randint(30, 90), rnd.randint(30, 90)
     elif sparse:
         npos, nneg = rnd.randint(400, 900), rnd.randint(400, 900)
@@ -686,8 +692,9 @@ def stat_scenario(verif_seed, j, tier):
         npos, nneg = rnd.randint(101, 300), rnd.randint(101, 300)
     while abs(npos - nneg) < 25:  # make swapped class parameters visible in the means
         nneg = rnd.randint(30, 90) if small else rnd.randint(400, 900) if sparse else rnd.randint(101, 300)
+    vstyle = "ties" if variant == "ties" else "unique"
     spec = {
-        "pos": gen_values(rnd, npos, "unique", -3.0, 6.0), "neg": gen_values(rnd, nneg, "unique", -6.0, 3.0),
+        "pos": gen_values(rnd, npos, vstyle, -3.0, 6.0), "neg": gen_values(rnd, nneg, vstyle, -6.0, 3.0),
         "dtype": "float64", "score_class": rnd.choice(["pos", "neg"]), "equal_class": rnd.choice(["pos", "neg"]),
         "nb_easy_pos": 0, "nb_easy_neg": 0,
     }
@@ -696,6 +703,8 @@ def stat_scenario(verif_seed, j, tier):
         spec["nb_easy_neg"] = rnd.randint(nneg // 2, nneg)
         if rnd.random() < 0.4:
             spec[rnd.choice(["nb_easy_pos", "nb_easy_neg"])] = rnd.randint(1, 3)  # a very small easy stratum next to many scored samples
+    if variant == "easy_heavy":
+        spec["nb_easy_pos"], spec["nb_easy_neg"] = rnd.randint(30, 70), rnd.randint(0, 20)
     cfg = {"sampling_method": method, "stratified_sampling": strat, "smoothing": smoothing}
     if method == "proportion":
         cfg["ratio"] = rnd.choice([0.02, 0.04, 0.06]) if sparse else rnd.choice([0.1, 0.25, 0.5, 0.8])
@@ -711,10 +720,14 @@ def execute_stat(scn, ctx):
     config = M.build_config(cfg)
     Mn = int(scn["M"])
     eff = effective_method(cfg, src)
-    up, un = np.asarray(src.pos), np.asarray(src.neg)  # unique, sorted by construction
+    # distinct values and how often each occurs in the source (all 1 except in the tied variant): a value that occurs
+    # m times is drawn m times per sample on average
+    up, mp_ = np.unique(np.asarray(src.pos), return_counts=True)
+    un, mn_ = np.unique(np.asarray(src.neg), return_counts=True)
+    tied = bool((mp_ > 1).any() or (mn_ > 1).any())
     R = 6
-    cp = np.zeros((Mn, len(up)), dtype=np.int8)
-    cn = np.zeros((Mn, len(un)), dtype=np.int8)
+    cp = np.zeros((Mn, len(up)), dtype=np.float32 if tied else np.int8)
+    cn = np.zeros((Mn, len(un)), dtype=np.float32 if tied else np.int8)
     sizes = np.zeros((Mn, 4))
     smoothing = bool(cfg.get("smoothing"))
     tags = {"method": cfg["sampling_method"], "strat": cfg.get("stratified_sampling"), "smoothing": smoothing, "stat": True}
@@ -731,12 +744,16 @@ def execute_stat(scn, ctx):
         if not smoothing:
             ip = np.searchsorted(up, s.pos)
             ineg = np.searchsorted(un, s.neg)
-            cp[i] = np.minimum(np.bincount(ip, minlength=len(up))[: len(up)], R)
-            cn[i] = np.minimum(np.bincount(ineg, minlength=len(un))[: len(un)], R)
+            if tied:  # occurrences per source copy of the value, capped like the untied count
+                cp[i] = np.minimum(np.bincount(np.minimum(ip, len(up) - 1), minlength=len(up))[: len(up)], R * mp_) / mp_
+                cn[i] = np.minimum(np.bincount(np.minimum(ineg, len(un) - 1), minlength=len(un))[: len(un)], R * mn_) / mn_
+            else:
+                cp[i] = np.minimum(np.bincount(ip, minlength=len(up))[: len(up)], R)
+                cn[i] = np.minimum(np.bincount(ineg, minlength=len(un))[: len(un)], R)
         sizes[i] = (len(s.pos), len(s.neg), s.nb_easy_pos, s.nb_easy_neg)
     info = seam.end_op()
     n_tests = 0
-    npos, nneg = len(up), len(un)
+    npos, nneg = len(src.pos), len(src.neg)
     cap = 2 * (src.nb_all_samples) + 50
     src_sizes = np.array([npos, nneg, src.nb_easy_pos, src.nb_easy_neg], dtype=float)
     if eff == "proportion":
@@ -762,7 +779,7 @@ def execute_stat(scn, ctx):
                 if not reach.all():
                     viol.append({"invariant": "C11.reachability", "tags": tags,
                                  "detail": f"{nm} value #{int(np.argmin(reach))} never drawn in {Mn} samples"})
-                ok, m, tol = ST.mean_test(c.astype(float), np.ones(n), float(R), slack=1e-3)
+                ok, m, tol = ST.mean_test(c.astype(float), np.ones(c.shape[1]), float(R), slack=1e-3)
                 n_tests += n
                 if not ok.all():
                     w = int(np.argmax(np.abs(m - 1) - tol))
